@@ -129,6 +129,11 @@ func init() {
 			if n, _ := rp["data_races"].(int); n > 0 {
 				run.Violation("data-race/"+fmt.Sprint(rp["first_site"]), rp)
 			}
+			if n, _ := rp["harness_only_reports"].(int); n > 0 {
+				fmt.Println("HARNESS ERROR: the race pass reported", n, "races between harness functions only")
+				run.Count("harness_errors", 1)
+				ok = false
+			}
 		}
 		finishScenarios(run, execs, len(defs), bound, "; plus the same bodies free-running under the race detector (a report there is a violation, silence is auxiliary)")
 		run.Assumption("unsynchronised accesses are invisible to the cooperative scheduler; they are looked for by the separate free-running -race pass of the same scenario bodies")
